@@ -137,3 +137,58 @@ func sigmaStrings(k int) []string {
 	}
 	return out
 }
+
+// Decomp is one assigned code point whose NFKD form differs from itself
+// (table produced by the CPython oracle at setup).
+type Decomp struct {
+	S, NFKD, Kind string
+}
+
+func (c *Ctx) loadDecomp() []Decomp {
+	dir := filepath.Join(c.Aux, "uforms")
+	path := filepath.Join(dir, "decomp.tsv")
+	if _, err := os.Stat(path); err != nil {
+		cmd := exec.Command("python3", filepath.Join(c.VerifDir, "py", "norm.py"), "decomp", dir)
+		cmd.Stderr = os.Stderr
+		if err := cmd.Run(); err != nil {
+			c.Fatal("generating the decomposition table failed: %v", err)
+		}
+	}
+	f, err := os.Open(path)
+	if err != nil {
+		c.Fatal("decomp: %v", err)
+	}
+	defer f.Close()
+	var out []Decomp
+	sc := bufio.NewScanner(f)
+	for sc.Scan() {
+		p := strings.Split(sc.Text(), "\t")
+		if len(p) != 3 {
+			c.Fatal("decomp: bad line")
+		}
+		cp, err := strconv.ParseUint(p[0], 16, 32)
+		b, err2 := hex.DecodeString(p[1])
+		if err != nil || err2 != nil {
+			c.Fatal("decomp: bad line")
+		}
+		out = append(out, Decomp{string(rune(cp)), string(b), p[2]})
+	}
+	return out
+}
+
+// decompSlice selects the code points used by a tier: all non-Hangul ones,
+// and every Hangul syllable (thorough) or every 97th plus the block ends (quick).
+func (c *Ctx) decompSlice() []Decomp {
+	var out []Decomp
+	h := 0
+	for _, d := range c.loadDecomp() {
+		if d.Kind == "hangul" {
+			h++
+			if !c.Thorough && h%97 != 1 && d.S != "\ud7a3" {
+				continue
+			}
+		}
+		out = append(out, d)
+	}
+	return out
+}
